@@ -35,7 +35,11 @@ func (lsm *LSM) NewIterators(opt *utils.Options) []utils.Iterator {
 	if mem != nil {
 		iter.iters = append(iter.iters, mem.NewIterator(opt))
 	}
-	for _, imm := range immutables {
+	// The merge iterator keeps the left-most source on equal keys, so sources
+	// must be listed newest first: immutables are appended on rotation, walk
+	// them backwards (the order point reads use).
+	for i := len(immutables) - 1; i >= 0; i-- {
+		imm := immutables[i]
 		if imm == nil {
 			continue
 		}
